@@ -2,8 +2,13 @@
 import fcntl, json, os, re, shutil, subprocess, sys, time, hashlib
 
 VERIF = os.path.dirname(os.path.dirname(os.path.abspath(__file__)))
-REPO = '/repo'
-BUILD = os.path.join(VERIF, 'build')
+# VERIF_REPO: run the checks against another checkout (used only by tools/seedtest.py to try seeded changes in a
+# scratch worktree without touching /repo).  Registered commands never set it.
+REPO = os.environ.get('VERIF_REPO', '/repo')
+ALT = REPO != '/repo'
+BUILD = os.path.join(VERIF, 'build') if not ALT else os.path.join(VERIF, 'build', 'alt-' + hashlib.md5(REPO.encode()).hexdigest()[:8])
+EVIDENCE = os.path.join(VERIF, 'evidence') if not ALT else os.path.join(BUILD, 'evidence')
+HARNESS = os.path.join(VERIF, 'harness') if not ALT else os.path.join(BUILD, 'harness')
 SPEC = os.path.join(VERIF, 'spec')
 GUARD = 'opensuse_rapidquilt_verif'
 RUSTFLAGS = '--cfg %s --check-cfg cfg(%s)' % (GUARD, GUARD)
@@ -46,17 +51,29 @@ def build():
     """(Re)build /repo's binary with the hooks on and the harness against /repo's working tree."""
     lock = _locked('.build.lock')
     try:
+        if ALT:
+            # private copy of the harness whose path dependency points at the alternate checkout
+            src = os.path.join(VERIF, 'harness')
+            for root, dirs, files in os.walk(src):
+                dirs[:] = [d for d in dirs if d != 'target']
+                for fn in files:
+                    sp = os.path.join(root, fn)
+                    dp = os.path.join(HARNESS, os.path.relpath(sp, src))
+                    os.makedirs(os.path.dirname(dp), exist_ok=True)
+                    data = open(sp).read().replace('"/repo', '"' + REPO).replace('../build/target-harness', os.path.join(BUILD, 'target-harness'))
+                    if not os.path.exists(dp) or open(dp).read() != data:
+                        open(dp, 'w').write(data)
         env = dict(os.environ, RUSTFLAGS=RUSTFLAGS, CARGO_NET_OFFLINE='true')
         t0 = time.time()
         for what, cmd, cwd in (
             ('rapidquilt (hooks on)', ['cargo', 'build', '--offline', '--quiet', '--bin', 'rapidquilt',
                                        '--target-dir', os.path.join(BUILD, 'target-repo')], REPO),
-            ('harness', ['cargo', 'build', '--offline', '--quiet'], os.path.join(VERIF, 'harness')),
+            ('harness', ['cargo', 'build', '--offline', '--quiet'], HARNESS),
         ):
             e = dict(env)
             if what == 'harness':
                 e.pop('RUSTFLAGS')      # harness/.cargo/config.toml carries the flags
-                lockfile = os.path.join(VERIF, 'harness', 'Cargo.lock')
+                lockfile = os.path.join(HARNESS, 'Cargo.lock')
                 if not os.path.exists(lockfile):
                     shutil.copy(os.path.join(REPO, 'Cargo.lock'), lockfile)
             p = subprocess.run(cmd, cwd=cwd, env=e, stdout=subprocess.PIPE, stderr=subprocess.STDOUT, text=True)
@@ -204,14 +221,14 @@ def finish(res):
             hits.setdefault(m['key'], m)
         else:
             new.append(v)
-    os.makedirs(os.path.join(VERIF, 'evidence'), exist_ok=True)
+    os.makedirs(EVIDENCE, exist_ok=True)
     wall = time.time() - res.t0
     cov = dict(res.cov)
     cov['exhaustive'] = cov.get('exhaustive', False)
     ev = {'property_id': res.prop, 'tier': res.tier, 'seed': seed(), 'level': res.level, 'coverage': cov,
           'assumptions': res.assumptions, 'wall_s': round(wall, 1), 'violations': len(new),
           'known_findings_hit': sorted(hits), 'diagnostics': res.diagnostics[:20]}
-    with open(os.path.join(VERIF, 'evidence', res.prop + '.json'), 'w') as f:
+    with open(os.path.join(EVIDENCE, res.prop + '.json'), 'w') as f:
         json.dump(ev, f, indent=1, sort_keys=True, default=str)
         f.write('\n')
     for k in hits.values():
